@@ -283,6 +283,10 @@ fn max_diff(a: &[Vec<f64>; 2], b: &[Vec<f64>; 2]) -> f64 {
     let mut d: f64 = 0.0;
     for pl in 0..2 {
         for (x, y) in a[pl].iter().zip(b[pl].iter()) {
+            // (f64::max drops a NaN: a NaN probability must make the difference NaN)
+            if (x - y).is_nan() {
+                return f64::NAN;
+            }
             d = d.max((x - y).abs());
         }
     }
@@ -314,6 +318,32 @@ pub fn record(args: &Args) {
                 continue;
             }
             let preset = PARAM_SETS[(gi + mi) % 10];
+            // budgets 0 and 1: nothing / one iteration accumulated (the conversion of empty or barely filled accumulators
+            // into a profile is code of its own in the several-thread path)
+            for tiny in [0u64, 1] {
+                let sd = seed.wrapping_mul(31).wrapping_add(gi as u64);
+                if let Ok(one) = thresholded(&tg, meth, preset, 1, tiny, 0.0, sd) {
+                    for &k in &[2usize, 3] {
+                        match thresholded(&tg, meth, preset, k, tiny, 0.0, sd) {
+                            Err(msg) => cmp.line(&json!({"status": "violation", "game": name, "method": meth, "k": k, "T": tiny,
+                                "mismatch": [{"class": "panic", "what": "solve failed or panicked with several threads", "observed": msg}]})),
+                            Ok((_, dense, bounds)) => {
+                                runs += 1;
+                                let d = max_diff(&dense, &one.1);
+                                let same_bounds = (0..2).all(|p| bounds[p] == one.2[p] || (bounds[p] - one.2[p]).abs() <= 1e-9 * one.2[p].abs().max(1.0));
+                                let nan = dense.iter().any(|side| side.iter().any(|x| x.is_nan()));
+                                if d > 1e-9 || nan || !same_bounds {
+                                    cmp.line(&json!({"status": "violation", "game": name, "method": meth, "preset": preset, "k": k, "T": tiny,
+                                        "mismatch": [{"class": "differs", "what": "result with several threads differs from one thread (budget 0 / 1)",
+                                            "max_probability_difference": if d.is_nan() { -1.0 } else { d }, "nan": nan}], "seed": sd}));
+                                } else {
+                                    cmp.line(&json!({"status": "ok", "game": name, "method": meth, "k": k, "T": tiny, "nontrivial": true}));
+                                }
+                            }
+                        }
+                    }
+                }
+            }
             // A regret exponent of -inf forgets all earlier regret: the next strategy is the normalised positive part of ONE
             // iteration's regrets, and the regret of an action played with probability one is zero up to the rounding of
             // the summation order - its sign then decides the strategy two iterations later.  Such runs are comparable
